@@ -25,11 +25,13 @@ BYTESTREAM = dict(pkg="./server", test="TestVerifByteStream", name="bytestream",
 HANDLERS = dict(pkg="./server", test="TestVerifHandlersNil", name="handlers", diff=False)
 
 FINDMISSING = dict(pkg="./cache/disk", test="TestVerifFindMissing", name="findmissing", diff=True)
+FMQUEUE = dict(pkg="./cache/disk", test="TestVerifFindMissingStalledBackend", name="fmqueue", diff=False)
+FAILFASTPARK = dict(pkg="./cache/disk", test="TestVerifFailFastParkedWorker", name="failfastpark", diff=False)
 FAILFAST = dict(pkg="./cache/disk", test="TestVerifFailFastRace", name="failfast", diff=False)
 
 CONFIG = dict(pkg="./config", test="TestVerifConfig", name="config", diff=True)
 
-LOAD = dict(pkg="./cache/disk", test="TestVerifLoad", name="load", diff=True, also=["C09", "C04"])
+LOAD = dict(pkg="./cache/disk", test="TestVerifLoad", name="load", diff=True, also=["C09", "C04", "C15"])
 
 CRASH = dict(pkg="./cache/disk", test="TestVerifCrash", name="crash", diff=False)
 
@@ -91,7 +93,7 @@ PROPS = {
         level_text="Theorems on M2 (casblob): for every conformant file (any chunk size, any frames decoding to the chunks) and every offset below the size, both readers return exactly data[offset:] (raw: the bytes; zstd: a stream decoding to them); the writer's output is conformant; readers are total.",
         level_note=NOTE + "codec laws are hypotheses (satisfied by a proved toy instance); the real codecs are exercised by the direct oracle only.", technique=TECH),
     "C20": dict(
-        lean="BR.Props.C20", runs=[BLOB, BLOBREAL, S3PROXY, HTTPPROXY, AZBLOB], trusted_base=COMMON_TB, assumptions=[],
+        lean="BR.Props.C20", runs=[BLOB, BLOBREAL, GRPCPROXY, S3PROXY, HTTPPROXY, AZBLOB], trusted_base=COMMON_TB, assumptions=[],
         level_text="Header encode/parse round trip and reader conformance theorems on M2; layout constants, file-name shapes and regexps regenerated from the source and compared by Bridge theorems; files from an independent encoder/reader in the harness; objects stored through the real S3 and HTTP back-end clients into in-process servers must appear under the published names for several prefix shapes and read back unchanged.",
         level_note=NOTE + "published layout written once in Lean as the specification.", technique=TECH),
     "C01": dict(
@@ -118,7 +120,7 @@ PROPS = {
         level_text="Decision model of the HTTP wrappers / certificate checks and gRPC interceptors; theorems for every configuration, endpoint, credential state and every gRPC method name (universally quantified); the real startHttpServer/startGrpcServer enumerated exhaustively over the whole finite domain against the model.",
         level_note="Lean 4 kernel; readOnlyMethods / health name / registered services regenerated from the source (Bridge.Auth); the correspondence is exhaustive, not sampled.", technique=TECH),
     "C06": dict(
-        lean="BR.Props.C06", runs=[SRVACDEPS, FINDMISSING, FAILFAST], trusted_base=["protobuf decoding of stored ActionResult / Tree blobs is a parameter (treeOf)"], assumptions=[],
+        lean="BR.Props.C06", runs=[SRVACDEPS, FINDMISSING, FAILFAST, FAILFASTPARK], trusted_base=["protobuf decoding of stored ActionResult / Tree blobs is a parameter (treeOf)"], assumptions=[],
         level_text="Theorems on M8: a hit implies every referenced blob (tree blobs, tree root/child files, non-inlined output files, stdout, stderr) is present; absence yields a miss, never an error or partial result; all present yields a hit. Server-level oracle over every subset of absent blobs; the decision compared with the model.",
         level_note=NOTE + "the fail-fast presence check is C10's model; recency refresh of dependencies is checked at the disk level.", technique=TECH),
     "C11": dict(
@@ -131,7 +133,7 @@ PROPS = {
         level_text="Partial. Theorems: casblob readers total on every byte string, resource-name parsers total, validator and GetTree walk handle absent sub-messages, Write answers every message sequence. Harness: every handler called in-process under recover with absent sub-messages and ill-formed stored blobs; mutated stored files; goroutine/reservation leak oracle.",
         level_note=NOTE + "partial: goroutine life cycle, third-party panics and resource exhaustion are checked by oracle only.", technique=TECH),
     "C15": dict(
-        lean="BR.Props.C15", runs=[SRVKEYS, PARSERS, DISK], trusted_base=["SHA-256 as an opaque function with an explicit no-collision hypothesis"], assumptions=[],
+        lean="BR.Props.C15", runs=[SRVKEYS, PARSERS, DISK, LOAD], trusted_base=["SHA-256 as an opaque function with an explicit no-collision hypothesis"], assumptions=[],
         level_text="Theorems on M3/M4: LookupKey injective in (key space, hash), file paths of different key spaces disjoint, mangled keys equal iff (key, instance) equal, the HTTP path prefix is the gRPC instance name; server oracle over instance names x both front ends x mangling on/off; URL parser compared with the model.",
         level_note=NOTE + "no-collision hypothesis explicit.", technique=TECH),
     "C16": dict(
@@ -139,7 +141,7 @@ PROPS = {
         level_text="Theorems on M10: early return for existing blobs, failure for non-zero first offset / bad or empty name / over-limit size / more or fewer bytes than declared, success commits exactly the declared size, parsers accept every conformant name with any instance prefix and trailing metadata; the real Write compared with writeRPC on generated message sequences.",
         level_note=NOTE + "the three-goroutine schedule is abstracted to the message sequence.", technique=TECH),
     "C10": dict(
-        lean="BR.Props.C10", runs=[FINDMISSING, FAILFAST], trusted_base=COMMON_TB, assumptions=[],
+        lean="BR.Props.C10", runs=[FINDMISSING, FAILFAST, FMQUEUE], trusted_base=COMMON_TB, assumptions=[],
         level_text="Theorems on M7 for every batch size and list length: the answer is the request filtered by 'absent locally (or other size) and not vouched for by the back end (or too large for it)', in order with duplicates; present-throughout never reported, absent-throughout reported, empty blob never missing, worker write order irrelevant, fail-fast miss iff something is missing. The real FindMissingCasBlobs compared with the model on generated partitions with concurrent unrelated puts; the final select driven through its yield point.",
         level_note=NOTE + "the worker pool's scheduling is abstracted by the order-irrelevance theorem.", technique=TECH),
     "C19": dict(
@@ -155,7 +157,7 @@ PROPS = {
         level_text="Theorems on M2/M6/M1: every file image a compressed upload can leave at a kill, except the final one of a successful write, is refused by readHeader and so by both readers (absent or complete, for all sizes, chunk sizes and streams); the final image is served identically at every offset; restart on any set of files re-establishes the accounting invariant and keeps every file tracked; a raw file (AC, RAW, uncompressed CAS) is adopted with its current length (F16). The real Put is interrupted at generated stream offsets, at the gate between file completion and index insertion and after the acknowledgement; every image is restarted in both storage modes and read through every path.",
         level_note=NOTE + "partial: power-loss durability is outside the model; torn raw files are the recorded finding F16.", technique=TECH),
     "C07": dict(
-        lean="BR.Props.C07", runs=[SCHED, F14, SLOWPATH, SRVPOOL], trusted_base=COMMON_TB + ["each index-lock region is taken as atomic and memory as touched only inside lock regions; an open file keeps its content after unlink; tempfile.Create never returns a name in use (O_EXCL): assumptions of model M5, not conclusions"], assumptions=["schedules are interleavings at the verif yield points; finer interleavings inside a lock region are excluded by the mutex"],
+        lean="BR.Props.C07", runs=[SCHED, F14, SLOWPATH, SRVPOOL, FAILFASTPARK], trusted_base=COMMON_TB + ["each index-lock region is taken as atomic and memory as touched only inside lock regions; an open file keeps its content after unlink; tempfile.Create never returns a name in use (O_EXCL): assumptions of model M5, not conclusions"], assumptions=["schedules are interleavings at the verif yield points; finer interleavings inside a lock region are excluded by the mutex"],
         level_text="Theorems on M5 for every schedule of any number of uploads, reads, remover steps and file corruptions: the C03 index invariant holds after every step and exactly the uploads in flight hold reservations (so nothing stays reserved at quiescence); every read that returns data returns the complete bytes of one completed upload to the same key; the files on disk are exactly the files of the tracked entries plus the completed files of uploads that have not committed, with unique names (directory = index at quiescence). The real Put/Get/remover are driven along generated schedules through the yield points (a released segment must reach its next gate or finish) and compared with the model on read results, reservations, entry count and recency order; quiescence oracles for accounting and directory; thorough tier under the race detector.",
         level_note=NOTE + "partial: atomicity of lock regions and absence of data races are assumed by the model (race detector in the thorough tier).", technique=TECH),
 }
